@@ -14,12 +14,24 @@ Proof. apply (lengths_sound 2). vm_compute. reflexivity. Qed.
 Lemma prefixes_count_ok : List.length prefixes = 2 ^ prefix_bits.
 Proof. vm_compute. reflexivity. Qed.
 
+Lemma prefixes_two_ok : 2 <= List.length prefixes.
+Proof. vm_compute. repeat constructor. Qed.
+
+Lemma covers_all_epochs_ok : forall eps dirs specs tr1 m1 tr2 m2 pre c post,
+  (forall e, In e eps -> wf_dirs prefixes (fst e)) -> wf_dirs prefixes dirs ->
+  epochs_end_idle (load init_pstate) eps ->
+  run_epochs (load init_pstate) eps = (tr1, m1) ->
+  run dirs m1 specs = (tr2, m2) ->
+  tr2 = pre ++ EFinished c :: post ->
+  forall i b, In b (nth i dirs []) -> In (EProc c i b) pre.
+Proof. exact (covers_all_epochs_gen prefixes prefixes_sorted_ok prefixes_len_ok prefixes_two_ok). Qed.
+
 Lemma covers_all_ok : forall dirs specs tr m pre c post,
   wf_dirs prefixes dirs ->
   run dirs (load init_pstate) specs = (tr, m) ->
   tr = pre ++ EFinished c :: post ->
   forall i b, In b (nth i dirs []) -> In (EProc c i b) pre.
-Proof. exact (covers_all_gen prefixes prefixes_sorted_ok prefixes_len_ok). Qed.
+Proof. exact (covers_all_gen prefixes prefixes_sorted_ok prefixes_len_ok prefixes_two_ok). Qed.
 
 Lemma exactly_once_ok : forall dirs specs tr m,
   wf_dirs prefixes dirs ->
@@ -30,7 +42,7 @@ Lemma exactly_once_ok : forall dirs specs tr m,
   (forall c, In (EFinished c) tr -> forall i b, In b (nth i dirs []) ->
      count_occ event_eq_dec tr (EProc c i b) = 1) /\
   finished_cycles tr = map N.of_nat (seq 0 (N.to_nat (completed_cycles (ms_p m)))).
-Proof. exact (exactly_once_gen prefixes prefixes_sorted_ok prefixes_len_ok). Qed.
+Proof. exact (exactly_once_gen prefixes prefixes_sorted_ok prefixes_len_ok prefixes_two_ok). Qed.
 
 Lemma cycle_numbers_ok_ok : forall dirs specs tr m,
   wf_dirs prefixes dirs ->
@@ -38,7 +50,7 @@ Lemma cycle_numbers_ok_ok : forall dirs specs tr m,
   cycle_numbers_ok (finished_cycles tr) /\
   steps_by_0_or_1 0 (map completed_cycles (saved_states tr)) /\
   last_or (map completed_cycles (saved_states tr)) 0 = completed_cycles (ms_p m).
-Proof. exact (cycle_numbers_gen prefixes prefixes_sorted_ok prefixes_len_ok). Qed.
+Proof. exact (cycle_numbers_gen prefixes prefixes_sorted_ok prefixes_len_ok prefixes_two_ok). Qed.
 
 Lemma cycle_numbers_without_kill_ok : forall dirs specs tr m,
   wf_dirs prefixes dirs ->
